@@ -113,7 +113,7 @@ PROPS = {
         "assumptions": [
             "hash and recovered sender are functions of the go-ethereum transaction's fields (so field identity implies both)",
         ],
-        "level_text": "Machine-checked proof (Lean 4) that wrapping and unwrapping is the identity on every transaction of the three types whose amounts fit 256 bits (all field values, creation, empty/huge data and access lists, zero signature components), that larger values are refused rather than altered, and that fee / cost / effective price / effective fee / effective cost derived from the message equal go-ethereum's figures; tied to the real code by signing random transactions and sending them through FromEthereumTx → BuildTx → encode → decode → AsTransaction.",
+        "level_text": "Machine-checked proof (Lean 4) that wrapping and unwrapping is the identity on every transaction of the three types whose amounts fit 256 bits (all field values, creation, empty/huge data and access lists, zero signature components), that larger values are refused rather than altered, that fee / cost / effective price / effective fee / effective cost derived from the message equal go-ethereum's figures, and that signing a message that already carries a signature yields the transaction with exactly the new signature values, independently of the old ones; tied to the real code by signing random transactions and sending them through FromEthereumTx → BuildTx → encode → decode → AsTransaction.",
         "level_note": "Trusted: Lean kernel; correspondence harness; protobuf codec and go-ethereum hashing/recovery are not modelled (covered end to end by the monitors: hash, recorded hash, sender, canonical encoding).",
         "technique": "Lean 4 round-trip proof (byte-encoding inverse lemma + case analysis) + differential correspondence",
         "explanation": "Field-by-field model of the eth ↔ proto conversion; Go monitors compare hash, recorded hash, recovered sender, canonical binary encoding and the fee figures of the decoded message with the original signed transaction.",
@@ -161,7 +161,7 @@ PROPS = {
             "the account satisfies Validate() (C09) and DelegatedVesting is empty (Haqq's TrackDelegation only grows DelegatedFree and addGrant resets both)",
             "stated for spend attempts by the account; slashing and a funder's merge are not spends",
         ],
-        "level_text": "Machine-checked proofs (Lean 4): LockedCoins equals max(original − unlockedVested − trackedDelegated, unvested) for every valid account, block time and denomination in use, it never grows with time, a debit that passes the bank guard leaves at least the locked amount, a delegation that passes the staking wrapper's guard leaves at least the unvested amount, and balance ≥ locked is an invariant of every history of spends, receipts, delegations, undelegations and time steps; every spend path of the list is attempted around the spendable boundary on the real application and compared with the model's accept/refuse verdict.",
+        "level_text": "Machine-checked proofs (Lean 4): LockedCoins equals max(original − unlockedVested − trackedDelegated, unvested) for every valid account, block time and denomination in use, it never grows with time, a debit that passes the bank guard leaves at least the locked amount, a delegation that passes the staking wrapper's guard leaves at least the unvested amount, balance ≥ locked is an invariant of every history of spends, receipts, delegations, undelegations and time steps, and an accepted conversion back to a plain account (MsgConvertVestingAccount) happens only when the locked amount is zero then and at every later time, whatever is delegated; every spend path of the list is attempted around the spendable boundary on the real application and compared with the model's accept/refuse verdict.",
         "level_note": "Trusted: Lean kernel; correspondence harness; SDK bank/staking internals modelled as guards.",
         "technique": "Lean 4 proofs over the C09 schedule model (omega after unfolding) + history invariant + differential correspondence per spend path",
         "explanation": "Guard algebra proved on the vesting model; bank send, multi-send, fee payment, DAO fund, governance deposit, delegation by message compared op by op with the model at amounts spendable±1; EVM value transfer, precompile delegation and undelegation monitored with the property's own formula.",
@@ -329,7 +329,7 @@ PROPS = {
         "assumptions": [
             "the payload over which a signature is made contains every transaction field, the chain id and the nonce / sequence (EIP-155/2930/1559 signing hashes; Cosmos SignDoc; EIP-712 typed data) — the single-field mutation sweep of the correspondence run probes exactly this on the real code",
         ],
-        "level_text": "Partial (cryptography assumed explicitly). Machine-checked (Lean 4): an Ethereum-route batch is accepted exactly when its nonces are seq, seq+1, …; an accepted transaction is refused at every later point; over every history of valid, duplicated, out-of-order and batched submissions the nonces executed are exactly consecutive, each once; the Cosmos / EIP-712 routes accept only the current sequence; under Unforgeable no change of the signed payload is accepted for the original signer; kernel-checked over regenerated facts: the sequence decorator loads the account and compares the nonce for every message unconditionally, the signature decorator uses the chain's signer, refuses unprotected transactions and sets From from the recovered sender. Tied to the code by an exact differential run of real transactions through DeliverTx for all three routes, including every single-field mutation of all Ethereum transaction types with the signature kept.",
+        "level_text": "Partial (cryptography assumed explicitly). Machine-checked (Lean 4): an Ethereum-route batch is accepted exactly when its nonces are seq, seq+1, …; an accepted transaction is refused at every later point; over every history of valid, duplicated, out-of-order and batched submissions the nonces executed are exactly consecutive, each once; executing the messages of an accepted transaction — calls and contract creations in any mix — leaves the sequence where the ante handler advanced it (with a kernel-checked counterexample for the code before 37d9750, where a creation moved it back and a later message of the same transaction could be executed twice); the Cosmos / EIP-712 routes accept only the current sequence; under Unforgeable no change of the signed payload is accepted for the original signer; kernel-checked over regenerated facts: the sequence decorator loads the account and compares the nonce for every message unconditionally, the signature decorator uses the chain's signer, refuses unprotected transactions and sets From from the recovered sender. Tied to the code by an exact differential run of real transactions through DeliverTx for all three routes, including every single-field mutation of all Ethereum transaction types with the signature kept.",
         "level_note": "Partial: replay logic proved and tied to the code; binding to content proved under an explicit unforgeability hypothesis and probed field by field on the real ante chains. Trusted: Lean kernel; extractor; harness; go-ethereum / SDK crypto.",
         "technique": "Lean 4 proofs of the sequence state machine (induction over histories) + binding theorem under an explicit unforgeability hypothesis + regenerated decorator-shape facts + differential correspondence on real signed transactions",
         "explanation": "Sequence machine proved; real DeliverTx on the application with batches of 1–3 Ethereum messages (consecutive, duplicated, skipped, reversed nonces), replays, every single-field mutation (12 fields × 3 transaction types) and foreign-chain signatures, Cosmos direct-mode and EIP-712 (both variants) transactions signed with current / future / past sequence and this / another chain id, tampered after signing in six ways, and replays.",
